@@ -11,7 +11,7 @@
 import NmfuProps.C20
 namespace Nmfu
 
-theorem C13_expansion_equivalent (withMacros expanded : Machine) (o : SemOpts) (V : List (PS AEv Quest))
+theorem C13_expansion_equivalent (withMacros expanded : Machine) (o : SemOpts) (V : List (PS Nat Nat AEv Quest))
     (h : certOK (withMacros.sm o) (expanded.sm o) nSym V = true) (ω : Oracle AEv Quest) (w : List Nat)
     (hw : ∀ x ∈ w, x < nSym) :
     Comparable ((withMacros.sm o).events ω w) ((expanded.sm o).events ω w) ∧
